@@ -104,6 +104,7 @@ package netflow9
 //@     decreases len(tr.FieldSpecifiers) - i
 
 //@ func NewDecoder
+//@   opt borrows b
 //@   ensures result != nil && result.raddr == raddr && rdr(result.reader) && result.reader.base == b && result.reader.count == 0
 
 // C09: a set is either consumed wholly (count advanced by at least its declared length; exactly when
@@ -136,6 +137,7 @@ package netflow9
 //@     decreases len(d.reader.data) + (err == nil ? 1 : 0)
 
 //@ func (*Decoder).Decode
+//@   opt borrows d
 //@   requires rdr(d.reader) && d.reader.count == 0 && len(d.reader.base) <= 65535 && wellFormed9(mem)
 //@   ensures (len(old(d.reader.base)) < 20 || be16(old(d.reader.base), 0) != 9) ==> result == nil && err != nil
 //@   ensures result != nil ==> phdrAt(result.Header, old(d.reader.base), 0)
@@ -184,6 +186,7 @@ package netflow9
 //@ pred jsKey(j ghost.JSON) = (j.Ph == 2 || j.Ph == 3) && jstop(j) == 1 && j.Dp >= 1 && j.Dp <= 2 && jscanon(j)
 
 //@ func (*Message).JSONMarshal
+//@   opt borrows b
 //@   opt json
 //@   requires b != nil && b.js.Ph == 0 && b.js.Dp == 0 && jscanon(b.js) && jssafe(m.AgentID)
 //@   ensures [valid] err == nil ==> b.js.Ph == 8
